@@ -118,19 +118,33 @@ def write_json(path, obj):
 
 
 def run_witness(prop, tier, seed, hints):
-    """Directed witness search on the REAL crate (replay/). Returns dict or None."""
+    """Directed witness search on the REAL crate (replay/). Returns dict or None. A property may name several flavours of
+    the witness binary (props.json `witness_flavours`, e.g. ["", "nightly"]): they are tried in order until one finds an input;
+    a configuration sub-run (configs.json `witness`) fixes the flavour through VERIF_WITNESS_FLAVOUR."""
     runner = os.path.join(VERIF, 'replay', 'run_witness.py')
     if not os.path.exists(runner):
         return None
-    try:
-        r = subprocess.run([sys.executable, runner, prop, '--tier', tier, '--seed', str(seed)],
-                           stdout=subprocess.PIPE, stderr=subprocess.PIPE, text=True, timeout=1500)
-    except subprocess.TimeoutExpired:
-        return {'status': 'timeout'}
-    try:
-        return json.loads(r.stdout.strip().split('\n')[-1])
-    except Exception:
-        return {'status': 'error', 'stdout': r.stdout[-2000:], 'stderr': r.stderr[-2000:]}
+    if os.environ.get('VERIF_WITNESS_FLAVOUR') is not None:
+        flavours = [os.environ['VERIF_WITNESS_FLAVOUR']]
+    else:
+        flavours = (load_props_cfg().get(prop) or {}).get('witness_flavours') or ['']
+    last = None
+    for fl in flavours:
+        env = dict(os.environ, VERIF_WITNESS_FLAVOUR=fl)
+        try:
+            r = subprocess.run([sys.executable, runner, prop, '--tier', tier, '--seed', str(seed)], env=env,
+                               stdout=subprocess.PIPE, stderr=subprocess.PIPE, text=True, timeout=1500)
+        except subprocess.TimeoutExpired:
+            last = {'status': 'timeout', 'flavour': fl or 'stable'}
+            continue
+        try:
+            last = json.loads(r.stdout.strip().split('\n')[-1])
+        except Exception:
+            last = {'status': 'error', 'stdout': r.stdout[-2000:], 'stderr': r.stderr[-2000:]}
+        last['flavour'] = fl or 'stable'
+        if last.get('status') == 'found':
+            return last
+    return last
 
 
 def main():
@@ -424,6 +438,23 @@ def decide(prop, tier, seed, cfg, scratch, index, spec_dir, contracts_dir, evide
         else:
             undecided.append(u)
     bottom_bad = [b for b in bottoms if verdicts[b['uid']]['verdict'] != 'discharged']
+    # OS-request frame (C14 / C19): a unit that now issues other kinds / numbers of OS requests than recorded is undecided
+    frame_changed = []
+    if prop in ('C14', 'C19'):
+        try:
+            eff_base = json.load(open(os.path.join(VERIF, 'effects_baseline.json')))
+        except Exception:
+            eff_base = {}
+        for u in units:
+            if u['ident'] in eff_base:
+                try:
+                    now = engine.os_effects(engine.unit_orig_text(u))
+                except Exception:
+                    continue
+                if now != eff_base[u['ident']]:
+                    diff = ['%s: %d -> %d' % (k, eff_base[u['ident']].get(k, 0), now.get(k, 0))
+                            for k in sorted(set(now) | set(eff_base[u['ident']])) if now.get(k, 0) != eff_base[u['ident']].get(k, 0)]
+                    frame_changed.append('%s (%s)' % (u['ident'], ', '.join(diff)))
     # Kani leaf units of this property (complete proofs of functions Verus cannot ingest)
     all_kani = engine.kani_units(prop)
     kani_results = [engine.run_kani(k) for k in all_kani if k.get('mode', 'always') == 'always']
@@ -583,7 +614,7 @@ def decide(prop, tier, seed, cfg, scratch, index, spec_dir, contracts_dir, evide
     status = 'held'
     if violations:
         status = 'violation'
-    elif hard_global or undecided or lost or bottom_bad or changed_assumed or kani_undecided or (not proved and not known_hits):
+    elif hard_global or undecided or lost or bottom_bad or changed_assumed or frame_changed or kani_undecided or (not proved and not known_hits):
         status = 'undecided'
     elif not verifier_ok and not only_known:
         status = 'undecided'
@@ -651,6 +682,7 @@ def decide(prop, tier, seed, cfg, scratch, index, spec_dir, contracts_dir, evide
             'repo_src_sha256': index['repo_src_sha256'],
             'known_findings_matched': [k.get('what') for k, _, _ in known_hits],
             'assumed_functions_modified': changed_assumed,
+            'os_request_frame_changed': frame_changed,
             'kani_units': [{kk: k.get(kk) for kk in ('name', 'verdict', 'failed_checks', 'wall_s', 'cmd', 'backs', 'complete', 'what', 'mode', 'counterexample')}
                            for k in kani_results + tiebreaks],
             'kani_standby': [{'name': k['name'], 'mode': k['mode'], 'backs': k['backs'], 'what': k['what']} for k in all_kani
@@ -679,6 +711,8 @@ def decide(prop, tier, seed, cfg, scratch, index, spec_dir, contracts_dir, evide
             reasons.append('Kani unit %s undecided (rc %s)' % (k['name'], k['rc']))
         for c_ in changed_assumed:
             reasons.append('function with an ASSUMED contract was modified: %s' % c_)
+        for c_ in frame_changed:
+            reasons.append('the OS requests issued by this function differ from its recorded frame: %s' % c_)
         for l in lost:
             reasons.append('lost anchor: %s' % l['reason'])
         for g in hard_global[:5]:
